@@ -298,6 +298,21 @@ pub fn valid(sc: &Scenario) -> bool {
         if p.size == 0 || !(rdv == 0 || rdv == p.size) || gated > 1 || (gated == 1 && (p.size < 2 || rdv > 0)) {
             return false;
         }
+        // rounds: every round present has exactly `size` participants, in submission order, one submitter
+        let mut counts: std::collections::BTreeMap<u32, usize> = Default::default();
+        let mut last = 0u32;
+        for t in &p.tasks {
+            if let TaskKind::Round(r) = t {
+                if *r < last {
+                    return false;
+                }
+                last = *r;
+                *counts.entry(*r).or_insert(0) += 1;
+            }
+        }
+        if !counts.is_empty() && (counts.values().any(|c| *c != p.size) || p.submitters > 1 || rdv > 0 || gated > 0) {
+            return false;
+        }
     }
     true
 }
